@@ -9,6 +9,7 @@
 -/
 import Emu.Proofs.BtRows
 import Emu.Bt.Server
+import Emu.Proofs.LeafTie.ValidTimestamp
 
 namespace Emu.Props.C01
 open Emu Emu.Bt Emu.Proofs.BtRow Emu.Proofs.BtInv Emu.Proofs.BtRows
@@ -225,5 +226,15 @@ example :
         [.setCell [102] [113] 1000 [1], .setCell [102] [113] 2000 [2], .setCell [102] [113] 1000 [3],
          .deleteFromColumn [102] [113] true 2000 0]).map (·.cellsOf [102] [113]))
       = some [⟨1000, [3], []⟩] := by decide
+
+/-! ### Tie T1: the repository's own text of the timestamp test
+
+`Emu.Generated.Leaf.validTimestamp` is regenerated from `(*table).validTimestamp` (inmem.go) by
+the leaf translator on every run; the Model's `validTimestamp`, which the theorems above are
+about, is the same function. -/
+
+theorem source_validTimestamp_is_the_models (ts : Int) :
+    Emu.Generated.Leaf.validTimestamp ts = Emu.Bt.validTimestamp ts :=
+  Emu.Proofs.LeafTie.validTimestamp_tie ts
 
 end Emu.Props.C01
